@@ -15,6 +15,7 @@
 package blockfetch
 
 import (
+	"bytes"
 	"context"
 	"errors"
 	"fmt"
@@ -446,6 +447,14 @@ func (c *Client) GetBlock(point pcommon.Point) (ledger.Block, error) {
 	case <-c.batchDoneChan:
 		// BatchDone was processed successfully
 		c.releaseBusy(token)
+		// Only hand back the block that was asked for
+		if block == nil ||
+			!bytes.Equal(block.Hash().Bytes(), point.Hash) {
+			return nil, fmt.Errorf(
+				"%s: received block does not match requested point",
+				ProtocolName,
+			)
+		}
 		return block, nil
 	case <-protocolDone:
 		// Shutdown while waiting for BatchDone
